@@ -7,7 +7,7 @@ import os
 import subprocess
 import sys
 
-WT = '/tmp/repo-mut'
+WT = '/tmp/repo-mut-%d' % os.getpid()
 M = [
     # name, file, old, new, check
     ('collision-skip-hash-for-2', 'electrumx/server/block_processor.py',
